@@ -2,11 +2,14 @@ package run
 
 import (
 	"bytes"
+	"crypto/tls"
 	"encoding/json"
 	"fmt"
 	"math/rand"
 	"sort"
 	"strings"
+	"sync"
+	"time"
 
 	wire "github.com/jeroenrinzema/psql-wire"
 	"github.com/jeroenrinzema/psql-wire/pkg/buffer"
@@ -67,16 +70,63 @@ func PlayMode(beh M, rng *rand.Rand, proj *Projection, mode int) ([]M, error) {
 		return true
 	}
 	wait()
+	var tc *tls.Conn
+	plain := map[int][]byte{} // server Write index -> plaintext the TLS client found in it
+	var plainMu sync.Mutex
+	readerDone := make(chan struct{})
 	for _, sv := range L(beh, "steps") {
 		if wedged || conn.ServerClosed() {
 			break
 		}
 		st := AsM(sv)
 		switch S(st, "k") {
+		case "tls":
+			// the client performs the TLS handshake over the raw connection
+			conn.SkipRaw(conn.PendingRaw()) // the plaintext reply to the SSLRequest is not part of the TLS stream
+			tc = tls.Client(mem.ClientEnd{C: conn}, &tls.Config{InsecureSkipVerify: true})
+			hs := make(chan error, 1)
+			go func() { hs <- tc.Handshake() }()
+			var herr error
+			select {
+			case herr = <-hs:
+			case <-time.After(WaitTimeout):
+				herr = mem.ErrTimeout
+			}
+			if herr != nil {
+				x.Log.Append(mem.Ev{"k": "tlsfail", "conn": conn.ID})
+				tc = nil
+				wait()
+				continue
+			}
+			x.Log.Append(mem.Ev{"k": "tls", "conn": conn.ID})
+			go func() {
+				defer close(readerDone)
+				buf := make([]byte, 1<<16)
+				for {
+					n, err := tc.Read(buf)
+					if n > 0 {
+						idx := conn.WriteIndexAt(conn.RawConsumed())
+						plainMu.Lock()
+						plain[idx] = append(plain[idx], buf[:n]...)
+						plainMu.Unlock()
+					}
+					if err != nil {
+						return
+					}
+				}
+			}()
+			wait()
 		case "send":
 			m := AsM(st["m"])
 			b := cz.Bytes(m)
-			conn.Send(b, mem.Ev{"k": "send", "m": m})
+			if tc != nil {
+				x.Log.Append(mem.Ev{"k": "send", "conn": conn.ID, "m": m})
+				conn.BeginClientWrite()
+				tc.Write(b) //nolint
+				conn.EndClientWrite()
+			} else {
+				conn.Send(b, mem.Ev{"k": "send", "m": m})
+			}
 			if !B(st, "nowait") {
 				wait()
 			}
@@ -132,15 +182,23 @@ func PlayMode(beh M, rng *rand.Rand, proj *Projection, mode int) ([]M, error) {
 			x.Log.Append(mem.Ev{"k": "wedged", "conn": conn.ID})
 		}
 	}
+	if tc != nil { // let the TLS client drain what the server wrote
+		select {
+		case <-readerDone:
+		case <-time.After(WaitTimeout):
+		}
+	}
 	x.Shutdown()
 	// the user's global parameter map after the run (must be untouched)
 	x.Log.Append(mem.Ev{"k": "x-global", "conn": conn.ID, "m": paramsObj(x.Global)})
 	// everything the callbacks retained still has its content (C18)
 	x.Log.Append(mem.Ev{"k": "x-intact", "conn": conn.ID, "ok": x.Intact()})
-	p := &Projector{Conn: conn.ID, Proj: proj, SkipPre: proj != nil && proj.SkipPreamble}
+	plainMu.Lock()
+	p := &Projector{Conn: conn.ID, Proj: proj, SkipPre: proj != nil && proj.SkipPreamble, Plain: plain}
 	for _, e := range x.Log.Events() {
 		p.Feed(e)
 	}
+	plainMu.Unlock()
 	p.Finish()
 	out := append([]M{{"k": "cfg", "c": Clean(cfg)}}, p.Out...)
 	return out, nil
